@@ -160,6 +160,7 @@ STRING_LITS: T.List[T.Tuple[str, str]] = [
     ('nl-escape', "'a\\nb'"),
     ('ws-before-nl-escape', "'a \\nb'"),
     ('tab-escape', "'a\\tb'"),
+    ('cr-escape', "'a\\rb'"),
     ('unicode', "'grüß € \U0001d11e'"),
     ('hex-escapes', "'\\x41\\u00e9'"),
     ('unknown-escape', "'a\\qb'"),
